@@ -127,6 +127,8 @@ type Driver struct {
 	Replay func(c *Ctx, kase json.RawMessage)
 	// Extra runs vector-independent work (seeded drivers, histories), if any.
 	Extra func(c *Ctx)
+	// Finish runs once per process after all vectors (flush sinks).
+	Finish func(c *Ctx)
 	// Serial forces single-goroutine execution of vectors.
 	Serial bool
 }
@@ -261,6 +263,9 @@ func cmdRun(args []string) {
 	flush()
 	if d.Extra != nil && !*noExtra && si == 0 {
 		d.Extra(ctx)
+	}
+	if d.Finish != nil {
+		d.Finish(ctx)
 	}
 	flush()
 	sum.Cases = cases.Load()
